@@ -61,7 +61,10 @@ def run(ctx: Ctx):
     mods = [n for n in own_nodes(adv.node) if isinstance(n, ast.BinOp) and isinstance(n.op, ast.Mod)
             and u(n.left) == ind_name]
     divs = [c for c in own_calls(adv.node) if call_name(c) == "trunc_divide" and c.args and u(c.args[0]) == ind_name]
-    okv = len(mods) == 1 and len(divs) == 1 and u(mods[0].right) == u(divs[0].args[1]) == "V"
+    vshape = [n for n in own_nodes(adv.node) if isinstance(n, ast.Assign) and isinstance(n.targets[0], ast.Tuple)
+              and u(n.value) == "log_probs_t.shape" and len(n.targets[0].elts) == 3]
+    vname = u(vshape[0].targets[0].elts[2]) if vshape else None
+    okv = len(mods) == 1 and len(divs) == 1 and u(mods[0].right) == u(divs[0].args[1]) == vname
     col.ob("G12", "S1", f"{rel}::{ADV}::index=(src, token) over V", okv,
            "candidate index is not split as (index // V, index % V) with the vocabulary size", rel,
            topk_assign.lineno)
